@@ -58,6 +58,8 @@ def _eligible(var, lam, fn):
         return "block"
     if len(stmts) == 1 and stmts[0].get("k") == "ReturnStmt" and isinstance(stmts[0].get("value"), dict) and len(rets) == 1:
         return "expr"
+    if len(rets) == 1 and stmts and stmts[-1] is rets[0] and isinstance(rets[0].get("value"), dict):
+        return "tail"        # statements followed by one final 'return expr;': inlined where the result is assigned (x = f(...);)
     return None
 
 
@@ -164,6 +166,24 @@ class _Inliner:
         self.count += 1
         return {"k": "CompoundStmt", "l": call.get("l"), "inlined_lambda": True, "c": decls + body.get("c", [])}
 
+    def tail_for(self, assign, call, lam):
+        """`x = lam(args);`  ->  { P p = arg...; <body without its final return>; x = <returned expression>; }"""
+        blk = self.block_for(call, {"params": lam["params"], "body": lam["body"], "captures": lam.get("captures", [])})
+        if blk is None:
+            return None
+        last = blk["c"][-1]
+        if last.get("k") != "ReturnStmt":
+            return None
+        a = copy.deepcopy(assign)
+        core = strip(a)
+        # replace the call (right-hand side) by the returned expression
+        if core.get("k") == "BinaryOperator":
+            core["c"][1] = last["value"]
+        else:
+            core["c"][2] = last["value"]
+        blk["c"][-1] = a
+        return blk
+
     def expr_for(self, call, lam):
         args = call["c"][2:]
         params = lam["params"]
@@ -219,6 +239,15 @@ class _Inliner:
                 if isinstance(n.get("handlers"), list):
                     n["handlers"] = [rewrite(x, False) if isinstance(x, dict) else x for x in n["handlers"]]
                 core = strip(n)
+                if stmt_pos and core.get("k") in ("BinaryOperator", "CXXOperatorCallExpr") and core.get("op") == "=":
+                    rhs = strip(core["c"][1] if core["k"] == "BinaryOperator" else core["c"][2]) if len(core.get("c", [])) >= 2 else {}
+                    while rhs.get("k") in ("CXXConstructExpr", "MaterializeTemporaryExpr", "CXXBindTemporaryExpr", "ExprWithCleanups") and len(rhs.get("c", [])) == 1:
+                        rhs = strip(rhs["c"][0])
+                    d2 = _is_lambda_call(rhs, lambdas)
+                    if d2 is not None and lambdas[d2][2] == "tail":
+                        r = self.tail_for(n, rhs, lambdas[d2][1])
+                        if r is not None:
+                            return r
                 did = _is_lambda_call(core, lambdas)
                 if did is None:
                     return n
